@@ -289,7 +289,7 @@ def cases(tier, seed):
             for sub, cont, tm, nrep in variants:
                 out.append(_draw(gen.rng_for(7001, i), cls, op, sub, cont, tm, nrep))
                 i += 1
-    nrand = 240 if tier == "quick" else 8000
+    nrand = 240 if tier == "quick" else 6000
     for j in range(nrand):
         out.append(_draw(gen.rng_for(seed, 7, j)))
     return out
